@@ -48,6 +48,18 @@ class OArr(_np.ndarray):
     def __ne__(self, o): return self._cmp(o, "ne")
     __hash__ = None
 
+    def _part(self, which):
+        a = _np.asarray(self)
+        out = _np.empty(a.shape, dtype=object)
+        for i in _np.ndindex(a.shape):
+            e = a[i]
+            out[i] = getattr(e, which) if not isinstance(e, (int, float)) else (e if which == "real" else 0.0)
+        return out.view(OArr)
+
+    # numpy's .real / .imag of an object array are (self, zeros): elementwise parts instead
+    real = property(lambda self: self._part("real"))
+    imag = property(lambda self: self._part("imag"))
+
 
 import operator as _operator
 
@@ -612,6 +624,17 @@ class _Linalg(types.ModuleType):
                     A = _oarr(A)
                     if A.ndim == 2 and A.shape[0] == A.shape[1] and A.shape[0] <= 4:
                         return _det_obj(A) if a == "det" else _inv_obj(A)
+                    if A.ndim == 3 and A.shape[1] == A.shape[2] and A.shape[1] <= 4:
+                        # a stack of matrices (numpy broadcasts over the leading axis)
+                        if a == "det":
+                            out = _np.empty((A.shape[0],), dtype=object)
+                            for k_ in range(A.shape[0]):
+                                out[k_] = _det_obj(A[k_])
+                            return out.view(OArr)
+                        out = _np.empty(A.shape, dtype=object)
+                        for k_ in range(A.shape[0]):
+                            out[k_] = _inv_obj(A[k_])
+                        return out.view(OArr)
                     raise Undecided(f"np.linalg.{a} on a symbolic matrix larger than 4x4")
                 return real(A, *args, **kw)
             return g
